@@ -369,6 +369,24 @@ fn run_op(
     limit: usize,
     factor: f64,
 ) -> RunOut {
+    let r = run_op_once(rt, watch, prefix, make, limit, factor);
+    if r.outside {
+        // the operator used a spill directory outside the watched window (the counter is resynchronised now): observe it again
+        let mut r2 = run_op_once(rt, watch, prefix, make, limit, factor);
+        r2.outside = r2.outside || r2.files.is_none();
+        return r2;
+    }
+    r
+}
+
+fn run_op_once(
+    rt: &tokio::runtime::Runtime,
+    watch: &mut Watch,
+    prefix: &str,
+    make: &dyn Fn(ExecutionConfig, query_engine::execution::SharedMemoryPool) -> Arc<dyn PhysicalOperator>,
+    limit: usize,
+    factor: f64,
+) -> RunOut {
     watch.arm(prefix);
     let pool = create_memory_pool(limit);
     let cfg = config(limit, factor, &watch.root);
